@@ -195,6 +195,18 @@ var taoFoto = ev.Register(&ev.P[dayCase]{
 		if strings.Join(gotFo, "|") != strings.Join(wantFo, "|") {
 			return fmt.Errorf("%s (lunar %d/%d): Foto festivals %v, table gives %v", w, lm, ld, gotFo, wantFo)
 		}
+		// the same objects asked again (and after their predicates and printed forms were used) give the same lists
+		_, _, _, _ = tao.IsDayBaJie(), tao.IsDayBaHui(), tao.ToFullString(), foto.ToFullString()
+		var againT, againF []string
+		for e := tao.GetFestivals().Front(); e != nil; e = e.Next() {
+			againT = append(againT, e.Value.(*calendar.TaoFestival).GetName())
+		}
+		for e := foto.GetFestivals().Front(); e != nil; e = e.Next() {
+			againF = append(againF, e.Value.(*calendar.FotoFestival).GetName())
+		}
+		if strings.Join(againT, "|") != strings.Join(wantF, "|") || strings.Join(againF, "|") != strings.Join(wantFo, "|") {
+			return fmt.Errorf("%s (lunar %d/%d/%d): asked a second time the same Tao/Foto objects list %v / %v, first answer %v / %v", w, ly, lm, ld, againT, againF, wantF, wantFo)
+		}
 		return nil
 	},
 	Class: func(c dayCase) ([]string, bool) {
